@@ -96,7 +96,16 @@ RSchemasDep == UNION { { [Blk(lc, Body([p_st |-> PM(<<"m-st">>, "static probe")]
 
 \* zero levels: no dependent body, and not even a static one
 RBodyless == [Blk(<<>>, Nil, <<>>, 0, 0) EXCEPT !.depr = FALSE] @@ [mods |-> <<"m-r1">>, desc |-> "block without body"]
-RSchemas == IF Mode = "dep" THEN RSchemasDep \cup {RBodyless} ELSE
+\* ---- "label" mode (C07, label completion): two key labels, values shared between keys and separated by other keys
+LKey(a, b) == << <<0, a>>, <<1, b>> >>
+LBody(n) == [attrs |-> [a \in {n} |-> A(FALSE, TRUE, FALSE, FALSE)], blocks |-> EmptyFn, any |-> FALSE, ext |-> NoExt, link |-> FALSE]
+LabelDeps == { << [lk |-> LKey("aws", "instance"), ak |-> <<>>, body |-> LBody("p1")], [lk |-> LKey("aws", "zone"), ak |-> <<>>, body |-> LBody("p2")],
+                  [lk |-> LKey("gcp", "instance"), ak |-> <<>>, body |-> LBody("p3")], [lk |-> LKey("gcp", "image"), ak |-> <<>>, body |-> LBody("p4")] >>,
+               << [lk |-> LKey("b", "x"), ak |-> <<>>, body |-> LBody("p1")], [lk |-> LKey("a", "x"), ak |-> <<>>, body |-> LBody("p2")],
+                  [lk |-> << <<0, "a">> >>, ak |-> <<>>, body |-> LBody("p3")] >> }
+RSchemasLabel == { Blk(<<[dep |-> TRUE, comp |-> c0], [dep |-> TRUE, comp |-> c1]>>, Body([a |-> A(FALSE, TRUE, FALSE, FALSE)], EmptyFn, NoExt), ds, 0, 0) :
+                     c0, c1 \in BOOLEAN, ds \in LabelDeps }
+RSchemas == IF Mode = "dep" THEN RSchemasDep \cup {RBodyless} ELSE IF Mode = "label" THEN RSchemasLabel ELSE
             { Blk(<<[dep |-> TRUE, comp |-> TRUE]>>, Body(sa, sb, e), ds, 0, 0) : sa \in SAttrs, sb \in SBlocks, e \in Exts, ds \in DepSets }
 
 Root(r) == Body([top |-> A(FALSE, TRUE, FALSE, FALSE)], [r |-> r], NoExt)
@@ -124,16 +133,23 @@ NBItem == B("nb", <<"x", "y">>, <<At("na"), At("nz"), At("unknown")>>)
 Probes == << NBItem, AtV("p_st", Ref("ref.x")), AtV("p_d2", Ref("ref.x")), AtV("p_d4", Ref("ref.x")), AtV("p_s2", Ref("ref.x")), AtV("p_s3", Ref("ref.x")) >>
 SelVals == { <<>>, <<AtV("sel", Str("v"))>>, <<AtV("sel", Str("w"))>>, <<AtV("sel", Ref("z.y"))>> }
 BodiesDep == { sv \o Probes : sv \in SelVals } \cup { Probes \o sv : sv \in SelVals }
-Bodies == IF Mode = "dep" THEN BodiesDep ELSE { b \in UNION { [1..n -> Palette] : n \in 0..MaxItems } : NoDupAttrs(b) }
+Bodies == IF Mode = "dep" THEN BodiesDep ELSE IF Mode = "label" THEN { <<>>, <<At("a")>> } ELSE { b \in UNION { [1..n -> Palette] : n \in 0..MaxItems } : NoDupAttrs(b) }
 Labels == IF Mode = "dep" THEN { <<"x", "y">>, <<"x", "z">>, <<"q", "y">>, <<"x">>, <<>> }
+          ELSE IF Mode = "label" THEN { <<"aws", "instance">>, <<"aws", "zone">>, <<"gcp", "i">>, <<"aws", "">>, <<"a", "x">>, <<"", "x">>, <<"aws">> }
           ELSE IF Quick THEN { <<"x">>, <<"y">> } ELSE { <<"x">>, <<"y">>, <<"xx">>, <<>>, <<"x", "surplus">> }
 Docs == { << B("r", ls, b) >> : ls \in Labels, b \in Bodies }
 
 Cursors == IF Mode = "dep" THEN { [kind |-> "none", path |-> <<>>, prefix |-> "", index |-> 0] } ELSE
+  IF Mode = "label" THEN { [kind |-> "label", path |-> <<1>>, prefix |-> p, index |-> i] : p \in {"", "a", "i", "z", "x", "in"}, i \in {0, 1} } ELSE
   { [kind |-> "gap", path |-> <<1>>, prefix |-> p, index |-> 0] : p \in (IF Quick THEN {"", "d"} ELSE {"", "a", "d", "c", "dy"}) }
   \cup { [kind |-> "label", path |-> <<1>>, prefix |-> p, index |-> 0] : p \in (IF Quick THEN {""} ELSE {"", "x"}) }
 
-Init == schema \in {Root(r) : r \in RSchemas} /\ doc \in Docs /\ cur \in Cursors
+\* a label cursor sits behind the typed prefix of the label it is in
+CursorFits == cur.kind = "label" => /\ cur.index + 1 <= Len(doc[1].labels)
+                                    /\ LET t == doc[1].labels[cur.index + 1] IN
+                                         \/ cur.prefix = "" \/ (cur.prefix = "a" /\ t \in {"aws", "a"}) \/ (cur.prefix = "i" /\ t \in {"instance", "i"})
+                                         \/ (cur.prefix = "in" /\ t = "instance") \/ (cur.prefix = "z" /\ t = "zone") \/ (cur.prefix = "x" /\ t = "x")
+Init == schema \in {Root(r) : r \in RSchemas} /\ doc \in Docs /\ cur \in Cursors /\ CursorFits
 Next == UNCHANGED vars
 Spec == Init /\ [][Next]_vars
 
@@ -159,6 +175,8 @@ DepAgree == LET lk == Lookup(RS, doc[1]) IN
             RS.body # Nil =>
             DOMAIN E.schema.attrs = DOMAIN RS.body.attrs \cup (IF lk.res \in {"Ok", "Partial"} THEN DOMAIN lk.body.attrs ELSE {})
 
+\* label completion on the model: the values are a set (no duplicates to speak of) and all carry the typed prefix
+LabelDistinct == cur.kind = "label" => \A v \in LabelCandP(RS, cur.index, cur.prefix) : IsPrefix(cur.prefix, v)
 Emit == (EmitEvery = 1 \/ RandomElement(1..EmitEvery) = 1) =>
           PrintT(ToJson([cfg |-> "MC_Body", schema |-> schema, doc |-> doc, cur |-> cur, feat |-> Mode = "dep"]))
 =============================================================================
